@@ -426,13 +426,8 @@ contract(RD + "_dispatch_loop", props=["C15", "C14"],
          **RT_RELY)
 
 # ---------------------------------------------------------------------------------------------------------------------
-# EventDispatcher.run (C14 lifecycle).  Producers are user objects: interface contracts only.
+# TaskGroup enter / exit (C14): leaving a group waits for / cancels everything it started
 # ---------------------------------------------------------------------------------------------------------------------
-for nm in ("initialize", "main", "finalize"):
-    contract(EV + "Producer." + nm, abstract=True, verify=False, props=["C14"], may_suspend=True, modifies=["owned(self)"],
-             raises={"Exception": [], "CancelledError": []},
-             notes="interface contract of a producer phase: may suspend, may fail, touches only the producer")
-
 contract(TG + "__aenter__", props=["C14"], returns="TaskGroup", ensures=[("self", "same_object(result, self)")], modifies=[])
 specfun("tg_all_finished", ["g"], "forall(lambda i=Int: implies(0 <= i and i < len(g._tasks), seq_at(g._tasks, i).finished))")
 contract(TG + "__aexit__", props=["C14"], types={"exc_type": "Opt[Any]", "exc_value": "Opt[Any]", "traceback": "Opt[Any]"},
@@ -442,21 +437,3 @@ contract(TG + "__aexit__", props=["C14"], types={"exc_type": "Opt[Any]", "exc_va
          may_suspend=True, cancellable="once",
          modifies=["self._exiting", "every(Task, 'cancel_requested')"])
 
-RUN_RELY = dict(rely_havoc=RT_RELY["rely_havoc"] + ["self._active_tasks"], rely=RT_RELY["rely"] + [("pool_wf", "tp_wf(self._handlers_task_pool)")],
-                callee_variant="shared")
-FINALIZED_ONCE = ("every_producer_finalized_once", "gathered_count('finalize', self._producers) == 1")
-contract(ED + "run", props=["C14"], types={"stop_signals": "List[Int]"},
-         requires=[("pool_wf", "tp_wf(self._handlers_task_pool)")],
-         ensures=[FINALIZED_ONCE, ("no_group_left", "is_none(self._active_tasks)")],
-         # C14: "by returning, or by raising the producer's own error or the caller's cancellation, never an internal error"
-         raises={"Exception": [FINALIZED_ONCE], "CancelledError": [FINALIZED_ONCE, ("not_a_requested_stop", "not self._stopped")],
-                 "AssertionError!": [("only_reentry", "old(self._running) or old(not_none(self._active_tasks))")]},
-         # C14: "handlers still in flight are cancelled, not awaited": when run() waits for the pool every task in it has
-         # finished or has been asked to cancel
-         site_pre={"wait#0": [("in_flight_cancelled", "forall(lambda t=Task: implies(t in self._handlers_task_pool._tasks, t.finished or t.cancel_requested))")]},
-         may_suspend=True, cancellable="once",
-         modifies=["self._running", "self._active_tasks", "every(Task, 'cancel_requested')", "every(TaskGroup)", "every(Producer)"] + POOL_MOD,
-         loops={0: dict(invariant=[], modifies=[]),
-                1: dict(invariant=[("group", "not tg._exiting and fresh(tg) and same_object(self._active_tasks, tg)")], modifies=["content(tg._tasks)"]),
-                2: dict(invariant=[("group", "not tg._exiting and fresh(tg) and same_object(self._active_tasks, tg)")], modifies=["content(tg._tasks)"])},
-         **RUN_RELY)
